@@ -210,3 +210,14 @@ META["C20"]["rule"] += (" queue-burst profile: producer and consumer hammer the 
 for _p in ("C09", "C10", "C11", "C12", "C13"):
     META[_p]["rule"] += (" In half of the runs the client's own goroutines are held 0-3 simulated nanoseconds (fixed per site per run, drawn "
                          "before the client exists) at five guarded hand-over points, which makes their relative order a function of the seed.")
+
+META["C02"]["rule"] += (" init-burst profile: the writer (whole script, parameter changes at every 1st-3rd key frame) and 2-4 readers looping over "
+                        "playlist -> init -> newest listed segment run truly concurrently in one step; the init fetched after a playlist must never be older "
+                        "than the parameters that playlist's newest segment was encoded with (judged at rest; interleavings are the Go runtime's).")
+META["C03"]["rule"] += (" target-burst profile: same burst shape, the OnEncodeError callback spins for a seeded while; every playlist any reader saw must have "
+                        "TARGETDURATION >= round(EXTINF) of every listed segment and, per reader, a TARGETDURATION that never decreases.")
+META["C17"]["rule"] += (" A neighbour file of the same factories is written, finalised, read back and removed in between (cross-file isolation). race-store "
+                        "profile: Finalize (and Remove) run truly concurrently with 2-6 goroutines that open and drain part readers, under the race detector; "
+                        "every reader returns exactly its part's bytes.")
+META["C11"]["rule"] += (" A fault-free run in which no served playlist state calls for a stop must not end with an error (unexpected-stop). Byte ranges span several "
+                        "resources and EXT-X-MAP may carry a BYTERANGE; with the real muxer as origin the primary URL may carry a query that every request must keep.")
